@@ -79,9 +79,10 @@ def _tlc(cfg, **kw):
         with open(fn, "rb") as f:
             return pickle.load(f)
     r = core.tlc("MemSlice", cfg=cfg, **kw)
-    os.makedirs(cache, exist_ok=True)
-    with open(fn, "wb") as f:
-        pickle.dump(r, f)
+    if r.ok:
+        os.makedirs(cache, exist_ok=True)
+        with open(fn, "wb") as f:
+            pickle.dump(r, f)
     return r
 
 
